@@ -177,8 +177,28 @@ def run_cases(ctx, cases):
                          for k in range(len(mt) // 2)],
             impl_out=[parse_c(t) for t in i["out"][0]],
             model_out=[parse_q(t) for t in m["out"][0]],
-            switch=[int(t, 16) if not t.startswith("-") else -int(t[1:], 16) for t in m["switch"][0]])
+            switch=[int(t, 16) if not t.startswith("-") else -int(t[1:], 16) for t in m["switch"][0]],
+            cachedep=[int(t) for t in i["cachedep"][0]] if "cachedep" in i else None)
     return res
+
+
+def oracle_cache_independent(ctx, c, r):
+    """C04_fp_apply_column_local on the implementation: the harness applies the map a second time after zeroing everything the
+    input grid caches besides its data (profiles, integral, filling, moments - none of which main() keeps current for the grid the
+    Fokker-Planck map reads); the output must be the same bit for bit"""
+    cd = r.get("cachedep")
+    if cd is None:
+        return
+    if cd[0] != 0:
+        n = c.n
+        k = cd[1]
+        ctx.violation("impl-oracle", "FokkerPlanckMap::apply gives a different result when the quantities cached in its input grid (bunch profile, "
+                      "integral, moments) change while the data stay the same: %d cells differ, first at bunch %d column %d row %d"
+                      % (cd[0], k // (n * n), (k // n) % n, k % n), case=c.replay(), observed=dict(cells_differing=cd[0]),
+                      expected="output depends on data_in and the stencil table only (C04_fp_apply_column_local)",
+                      sig=dict(kind="fp", clause="cache-independence", dt=c.dt))
+        return
+    ctx.case_done((c.cid, "cache-independent"), c.steps >= 1)
 
 
 def row_cond(c, j):
@@ -267,3 +287,21 @@ def oracle_conservation(ctx, c, r, pid="C01"):
                               sig=dict(kind="fp", clause="conservation", dt=dt, variant=VARIANTS[c.v]))
                 return
             ctx.case_done((c.cid, b, x), c.v != 0 and c.e1 != 0)
+
+
+def fploop_downgrade(ctx, coq, dis, validated, how):
+    """downgrade rule of DESIGN 2.2 for Gen_FPLoop (translate/fploop2coq.py recognises one narrow loop idiom; a harmless rewrite of
+    FokkerPlanckMap::apply - pointer loops, hoisted column pointers - makes it fail loudly): when it is the only failing translator, the
+    development builds on the last-good file, every case of the run agrees (no disagreement, no violation) and the cases that stand
+    for what the generated nest states were evaluated (`validated`: outputs of whole multi-bunch grids equal to the model's - every column
+    processed -, the cache-independence probe on every case, and for C04 the narrow-start evolutions / relaxation runs), the property
+    is shown through tie 2 and the downgrade is recorded"""
+    failed = [g for g, s in coq["gen"].items() if s.startswith("failed")]
+    kf = load_known()
+    unlisted = [v for v in ctx.violations if match_known(kf, v) is None]      # listed open findings of the property do not count
+    if failed == ["Gen_FPLoop"] and validated and coq["make_ok"] and coq["props"]["ok"] and not coq["forbidden"] and coq["extract_ok"] \
+            and not dis and not unlisted and ctx.evaluations > 0:
+        ctx.extra["translators"]["Gen_FPLoop"] = "downgraded-to-correspondence (" + coq["gen"]["Gen_FPLoop"][:200] + ")"
+        ctx.notes.append("Gen_FPLoop: translator failed, last-good loop nest validated against the implementation (%s): downgraded to tie 2" % how)
+        return dict(coq, ok=True)
+    return coq
